@@ -240,6 +240,7 @@ static struct inject injects[] = {
     {"setsockopt", 0, 0, 0, 0},   {"timerfd_create", 0, 0, 0, 0}, {"timerfd_settime", 0, 0, 0, 0},
     {"epoll_ctl", 0, 0, 0, 0},    {"epoll_create", 0, 0, 0, 0},   {"socket", 0, 0, 0, 0},
     {"bind", 0, 0, 0, 0},         {"listen", 0, 0, 0, 0},         {"read", 0, 0, 0, 0},
+    {"filewrite", 0, 0, 0, 0},    {"fsync", 0, 0, 0, 0},          {"rename", 0, 0, 0, 0},
     {NULL, 0, 0, 0, 0}};
 
 static int inject_fire(const char *name)
@@ -829,7 +830,17 @@ static void free_chunks(struct simfd *f)
 ssize_t __real_write(int fd, const void *buf, size_t count);
 ssize_t __wrap_write(int fd, const void *buf, size_t count)
 {
-	if (!is_sim(fd)) return __real_write(fd, buf, count);
+	if (!is_sim(fd)) {
+		if (in_daemon && fd > 2) {
+			/* a write to a file of the daemon (the credential file's successor): full disk, I/O error */
+			int e = inject_fire("filewrite");
+			if (e) {
+				errno = e;
+				return -1;
+			}
+		}
+		return __real_write(fd, buf, count);
+	}
 	struct iovec v;
 	v.iov_base = (void *)buf;
 	v.iov_len = count;
@@ -924,6 +935,32 @@ int __wrap_open(const char *path, int flags, ...)
 	int fd = __real_open(path, flags, mode);
 	if (fd >= 0 && n_real_fds < 64) real_fds[n_real_fds++] = fd;
 	return fd;
+}
+
+int __real_fsync(int fd);
+int __wrap_fsync(int fd)
+{
+	if (in_daemon) {
+		int e = inject_fire("fsync");
+		if (e) {
+			errno = e;
+			return -1;
+		}
+	}
+	return __real_fsync(fd);
+}
+
+int __real_rename(const char *a, const char *b);
+int __wrap_rename(const char *a, const char *b)
+{
+	if (in_daemon) {
+		int e = inject_fire("rename");
+		if (e) {
+			errno = e;
+			return -1;
+		}
+	}
+	return __real_rename(a, b);
 }
 
 int __wrap_unlink(const char *path)
